@@ -8,7 +8,8 @@ out = ["# Seeded changes (written by independent sub-agents that saw only the pr
        "Each directory has patch.diff, demo/ (fails with the patch, passes without), meta.json, verified.txt (my own confirmation:",
        "demo passes without the patch, `make -k check` passes with it, demo fails with it).  Run one with `tools/run_seeded.sh <id>`,",
        "all with `tools/run_all_seeded.sh`.  Every patch.diff applies to /repo's HEAD (the pinned commit plus the 14 fix: commits);",
-       "C27-1 was re-made after a fix touched its line (original kept as patch.orig-base.diff).", "",
+       "C27-1 was re-made after a fix touched its line (original kept as patch.orig-base.diff).",
+       "seeded/regression.log = the last `tools/run_all_seeded.sh` run on the final tree: every seed exits 1.", "",
        "| seed | property | what it needs to manifest | confirmed | quick check | caught by | checks strengthened because of it |", "|---|---|---|---|---|---|---|"]
 for d in sorted(os.listdir(S)):
     p = os.path.join(S, d, "meta.json")
